@@ -217,7 +217,9 @@ def _group_waiters(ctx: Ctx, c: Collector) -> None:
                 else:
                     pr.append(f"tasks are awaited with {T.show(m.term)[:80]}; a failure must surface as soon as any task fails (asyncio.gather(*tasks))")
         fin = [e for e in gs.events if any(r == "finally" for _, r in e.tries)]
-        cancels = [e for e in fin if e.kind == "call" and e.term[1][0] == "attr" and e.term[1][2] == "cancel" and len(e.iters) == 1 and T.strip(e.iters[0][2]) == tasks and not e.guards]
+        cancels = [e for e in fin if e.kind == "call" and e.term[1][0] == "attr" and e.term[1][2] == "cancel" and len(e.iters) == 1 and T.strip(e.iters[0][2]) == tasks
+                   # (cancelling a finished task is a no-op: `if not task.done()` in front of the cancel changes nothing)
+                   and all(x == ("not", call(("attr", e.term[1][1], "done"))) for x in guard_terms(e.guards))]
         if not cancels:
             pr.append("the remaining tasks are not cancelled in a finally block (failure and cancellation exits)")
         drain = [e for e in fin if e.kind == "await" and e.term[0] == "call" and e.term[1] == T.glob("asyncio.gather") and e.term[2] == (("star", tasks),)
